@@ -1982,6 +1982,7 @@ impl<'a, 'b, W: Write> SerializeTupleStruct for TupleSer<'a, 'b, W> {
                         self.weak_present = bc.finish()?;
                         if !self.weak_present {
                             // present == false: emit null and skip field #3
+                            self.ser.write_space_if_pending()?;
                             if self.ser.at_line_start {
                                 self.ser.write_indent(self.ser.depth)?;
                             }
